@@ -6,6 +6,8 @@
 (*   arrays  interned decoded arrays: [den, big, v]  (value = v / den;      *)
 (*           big = 1: v holds decimal strings of values >= 2^31)            *)
 (*   vol     index of the input volume (C, Z, Y, X order) in arrays         *)
+(*   svol    orientation code -> index of the slice stack re-oriented to    *)
+(*           RAS+ by the harness (documented index mapping), same order     *)
 (*   init    snapshot of the directories before the first command           *)
 (*   events  [cmd (record of Pipeline.tla), exit, snap, report, remote]     *)
 (*   snap    per directory: fullres/transform ("absent"|"ok"|"bad", hash),  *)
@@ -125,7 +127,9 @@ SuccessClause(c, S1) ==
     [] c.op = "GenScales" -> Chk(InfoOk(sd), "oracle:SuccessButMissingFile")
     [] c.op = "Edit"      -> "ok"
     [] c.op = "Stats"     -> "ok"
-    [] c.op = "Vol"       -> IF ~InfoOk(sd) THEN "oracle:SuccessButMissingFile"
+    [] c.op = "HandInfo"  -> Chk(sd.fullres = "ok", "oracle:SuccessButMissingFile")
+    [] c.op \in {"Vol", "Slices"}
+                          -> IF ~InfoOk(sd) THEN "oracle:SuccessButMissingFile"
                              ELSE ScaleComplete(sd.scales[1])
     [] c.op = "Compute"   -> IF ~InfoOk(sd) THEN "oracle:SuccessButMissingFile"
                              ELSE ScalesComplete(sd, 2)
@@ -266,6 +270,9 @@ ContentAgrees(M, S1) ==
      /\ \A x \in slots :
            (M[x[1]].chunks[x[2]] = "map" /\ Case.vol # 0)
              => ConvOk(Arr(Case.vol), Arr(S1[x[1]].scales[x[2]].vox), S1[x[1]].info.dtype)
+     /\ \A x \in slots : \A code \in DOMAIN Case.svol :
+           (M[x[1]].chunks[x[2]] = SliceContent(code) /\ Case.svol[code] # 0)
+             => ConvOk(Arr(Case.svol[code]), Arr(S1[x[1]].scales[x[2]].vox), S1[x[1]].info.dtype)
 
 DesignClause(k, r) ==
   LET c == Ev[k].cmd IN
